@@ -359,8 +359,123 @@ def explore_enc(item):
     return rep
 
 
+# ------------------------------------------------------------------ delivery to every timeframe
+DELIVERY = [
+    ((("SMA2", "T2"), ("EMA2", "T4")), ()),
+    ((("SMA2", None), ("EMA2", "T2"), ("RSI2", "T2")), ()),
+    ((("OBV", "T4"), ("SMA2", None)), (("timeframe", "T2"),)),
+    ((("SMA2", "T2"), ("EMA2", "T4")), (("timeframe_fill", True),)),
+    ((("EMA2", "T4"),), (("timeframe", "T2"), ("timeframe_fill", True))),
+]
+DELIVERY_GAPS = "hth2hpxhth5h"
+
+
+def delivery_raw(word):
+    w = (word * 2)[:12]
+    return raw_stream(w, "+", "".join(DELIVERY_GAPS[i % len(DELIVERY_GAPS)] for i in range(len(w) - 1)), "T2")
+
+
+def delivery_apply(hx, op, raw, pos, removed):
+    if op[0] == "app":
+        hx.append(fresh(raw[pos:pos + op[1]]) if op[1] > 1 else fresh(raw[pos:pos + 1])[0])
+        return pos + op[1]
+    if op[0] == "rm":
+        removed[op[1]] = True
+        hx.remove_indicator(op[1])
+        return pos
+    label, tf = op[1], op[2]
+    hx.add_indicator(make(BY_LABEL[label], **({"timeframe": tf} if tf else {})))
+    removed.pop(op[3], None)
+    return pos
+
+
+def delivery_bad(hx, hkw, raw, pos):
+    """Every timeframe the Hexital lists must hold exactly the reference resampling of everything appended so far."""
+    from ..ref import cm as R
+    from .c03 import view as cview, rview
+    hk = dict(hkw)
+    for key, cands in sorted(hx.get_candles().items()):
+        tf = hk.get("timeframe") if key == "default" else key
+        want = list(raw[:pos])
+        if tf:
+            want = R.collapse(want, A.tf_seconds(tf))
+            if hk.get("timeframe_fill"):
+                want = R.fill(want, A.tf_seconds(tf))
+        if cview(cands) != rview(want):
+            return key
+    return None
+
+
+def explore_delivery(item):
+    tier, di, word = item
+    members, hkw = DELIVERY[di]
+    rep = Report()
+    depth = 5 if tier == "quick" else 7
+    raw = delivery_raw(word)
+    bind_repo()
+    from hexital import Hexital
+
+    def start():
+        inds = [make(BY_LABEL[l], **({"timeframe": t} if t else {})) for l, t in members]
+        return Hexital("h", [], inds, **dict(hkw))
+
+    names = [(make(BY_LABEL[l], **({"timeframe": t} if t else {})).name, l, t) for l, t in members]
+    seen = set()
+    frontier = deque([()])
+    while frontier:
+        path = frontier.popleft()
+        hx, pos, removed = start(), 0, {}
+        try:
+            for op in path:
+                pos = delivery_apply(hx, op, raw, pos, removed)
+        except Exception as e:
+            rep.inc("executions")
+            rep.violation(f"C19|delivery-raised|{di}|{type(e).__name__}", {"delivery": di, "word": word, "path": path, "oracle": "delivery", "error": repr(e)})
+            continue
+        rep.inc("executions")
+        rep.inc("transitions", len(path))
+        key = deep((hx, pos))
+        if key in seen:
+            continue
+        seen.add(key)
+        rep.add("states", key)
+        bad = delivery_bad(hx, hkw, raw, pos)
+        if bad is not None:
+            rep.violation(f"C19|timeframe-not-fed|{di}|{'after-remove' if any(o[0] == 'rm' for o in path) else 'plain'}",
+                          {"delivery": di, "word": word, "path": path, "oracle": "delivery", "timeframe": bad})
+            continue
+        if path:
+            rep.add("nontrivial", ("delivery", di, path))
+        if len(path) >= depth:
+            continue
+        ops = [("app", 1), ("app", 2)] if pos + 2 <= len(raw) else []
+        for nm, l, t in names:
+            ops.append(("add", l, t, nm) if nm in removed else ("rm", nm))
+        for op in ops:
+            frontier.append(path + (op,))
+    rep.sample({"delivery": DELIVERY[di], "stream": raw, "depth": depth})
+    return rep
+
+
+def replay_delivery(case):
+    bind_repo()
+    from hexital import Hexital
+    members, hkw = DELIVERY[case["delivery"]]
+    raw = delivery_raw(case["word"])
+    hx = Hexital("h", [], [make(BY_LABEL[l], **({"timeframe": t} if t else {})) for l, t in members], **dict(hkw))
+    pos, removed = 0, {}
+    try:
+        for op in case["path"]:
+            pos = delivery_apply(hx, tuple(op), raw, pos, removed)
+    except Exception:
+        return True
+    return delivery_bad(hx, hkw, raw, pos) is not None
+
+
 def replay(case):
     bind_repo()
+    if case.get("oracle") == "delivery":
+        return replay_delivery(case)
     objspec = tuple(case["obj"])
     objspec = (objspec[0], objspec[1] if objspec[0] == "ind" else tuple(tuple(m) for m in objspec[1]),
                objspec[2] if objspec[0] == "ind" else tuple(tuple(x) for x in objspec[2])) + tuple(objspec[3:])
@@ -440,13 +555,16 @@ def main(prop, tier):
     items = [(tier, oi, st, word) for oi in range(len(OBJECTS)) for st in ("empty", "preloaded", "calculated")]
     reps = pmap(explore, items)
     reps += pmap(explore_enc, [(tier, oi, word) for oi in range(len(OBJECTS))])
+    reps += pmap(explore_delivery, [(tier, di, word) for di in range(len(DELIVERY))])
     rep = merge_all(reps)
     rule = ("explicit-state search: from 3 initial states of every object of the pool (10 indicators, 6 Hexitals with 1-3 timeframes, fill, HA) "
             "every accessor of the read-only menu is applied in every reachable state (appends of 1|2 candles to the depth bound, states "
             "deduplicated on a deep snapshot of the whole object graph); the object with the accessor applied must be observationally equal "
             "(all candles of all timeframes + the results of all accessors) to the object without it, immediately and after 1 and 2 further appends; encoding matrix: every pair of encodings for the first two appends x encodings of the rest, all 9 encodings, result "
-            "equal to the all-Candle run and caller containers unchanged; non-trivial = distinct reachable deep states + distinct agreeing encoding plans")
-    return finish(prop, tier, rep, t0, rule=rule, bounds={"depth": 5 if tier == "quick" else 7, "objects": OBJECTS, "stream": word},
+            "equal to the all-Candle run and caller containers unchanged; delivery: breadth-first search over {append 1|2, remove_indicator, "
+            "add it back} on Hexitals with several member timeframes over a stream with gaps - in every reachable state every timeframe the Hexital "
+            "lists holds exactly the reference resampling of everything appended so far; non-trivial = distinct reachable deep states + distinct agreeing encoding plans")
+    return finish(prop, tier, rep, t0, rule=rule, bounds={"depth": 5 if tier == "quick" else 7, "objects": OBJECTS, "stream": word, "delivery": DELIVERY, "delivery_gaps": DELIVERY_GAPS},
                   replay_confirm=replay,
                   assumptions=["an accessor that raises is not a violation if the observable state is unchanged and the object stays usable",
                                "hidden state (caches) is not compared directly, only through what later calls return (2-step continuation)",
